@@ -231,7 +231,41 @@ func c05Sessions(tier string) [][]string {
 	add("t = 0", "for i = 3 {for j = 3 {if i == j {t = t + 1}}}", "t")
 	add("func f(n){v = [5, 6, 7]; for i = 3 {if v[i] == n {return i}}; -1}", "f(7)", "f(a)")
 	add("func f(n){K2 := n; n = n + 5; K2}", "f(a)")
+	// fifth round: a variable held in a register is still a variable - for values that are not integers, for the
+	// functions called from the loop, for an enclosing variable of the same name
+	add("func f(n){n = x; n}", "f(a)")
+	add("func gg(u){u + 0.5}", "func f(n){n = gg(n); n}", "f(a)")
+	add("func f(n){n = n / 2; n = n * 3 - 1; n % 5}", "f(a)")
+	add("func f(n){if n > 2 {n = \"big\"}; n}", "f(a)")
+	add("for i = 3 {i = \"z\"}", "i")
+	add("func f(){g = func(){i}; for i = 3 {println(g())}}", "f()")
+	add("func f(n){g = func(){m}; for m = n:n+2 {println(g())}}", "f(k0)")
+	add("j = 7", "func kk(){j}", "func h(n){for j = 2 {println(kk())}}", "h(a)", "j")
+	add("func g(){i = i + 10}", "for i = 3 {g(); println(i)}")
+	add("func f(n, m){m = n; n = m + 1; [n, m]}", "f(a, 2)")
+	add("func f(n){for n = 3 {println(n)}; n}", "f(a)")
+	add("for i = 3 {for i = 2 {println(i)}; println(i)}")
+	add("func f(n){n = -n; n = n - -3; n}", "f(a)")
+	add("func g(){i = \"w\"}", "for i = 3 {g(); println(i)}")
+	add("func f(n){for i = n {n = [i]}; n}", "f(k0)")
+	add("func f(n){n := 1.5; n}", "f(a)")
 	return out
+}
+
+// c05ExtSessions run in the extensions package: eval() resolves names at run time.
+func c05ExtSessions() [][]string {
+	return [][]string{
+		{"func f(n){eval(\"n+1\")}", "f(a)"},
+		{"func g(n){n = n + 1; eval(\"n\")}", "g(a)"},
+		{"func f(n){eval(\"n=5\"); n}", "f(a)"},
+		{"func f(n){eval(\"n:=7\"); n}", "f(a)"},
+		{"func f(n){for i = 3 {println(eval(\"i\"))}}", "f(a)"},
+		{"func f(n){eval(\"n=n*2\"); eval(\"n\") + n}", "f(a)"},
+		{"for i = 2 {println(eval(\"i+1\"))}"},
+		{"func f(n){eval(\"func(){n}()\")}", "f(a)"},
+		{"func f(n){eval(\"n=1.5\"); n}", "f(a)"},
+		{"func f(n, m){unjson(\"[n, m]\")}", "f(a, b)"},
+	}
 }
 
 func init() {
@@ -258,6 +292,9 @@ func init() {
 			for _, s := range c05Sessions(tier) {
 				jobs = append(jobs, Job{Prop: "C05", Pkg: "eval", Func: "VerifRegDiff", Args: s, MaxDec: 800})
 			}
+			for _, s := range c05ExtSessions() {
+				jobs = append(jobs, Job{Prop: "C05", Pkg: "extensions", Func: "VerifRegDiffExt", Args: s, MaxDec: 800})
+			}
 			return jobs
 		},
 		Budget: map[string]time.Duration{"quick": 8 * time.Minute, "thorough": 60 * time.Minute},
@@ -265,6 +302,6 @@ func init() {
 		Bounds: map[string]interface{}{"functions": "0,1,2,3,7,8,9,12 parameters (all integer / alternating integer-string), bodies: sum, =, ++, --, closure over a parameter, counted loops (nesting 1-2) over parameters, len()",
 			"loops":  "loop variable named i / a (a global) / g (a global) / n (a parameter); left by end, break, continue, return, error at a symbolic iteration k1 of a symbolic count k0 (0..3); at top level, inside a function, nested in another loop; sessions of 8, 9 and 12 consecutive top-level loops (more than the 8 registers) each left by end / break / error; nesting depth 1..4 (10 thorough)",
 			"values": "all int64 for a,b,c"},
-		Outside: []string{"type() and info (excluded by the property)", "del() on a parameter (documented difference, tests/delete.gr)"},
+		Outside: []string{"type() and info (excluded by the property)", "del() on a parameter (documented difference, tests/delete.gr)", "extension functions other than eval / unjson"},
 	})
 }
